@@ -117,8 +117,16 @@ def _part2(job):
             fmax = fmin + rng.choice([1.0, 2.0, 7.5])
             fdef = rng.choice([0.0 if fmin <= 0.0 <= fmax else fmin, fmin, fmax, round(rng.uniform(fmin, fmax), 3)])
             decl = [{'name': 'a' if i == 0 else 'c', 'type': 'int', 'min': imin, 'max': imax, 'default': idef},
-                    {'name': 'b' if i == 0 else 'd', 'type': 'float', 'min': fmin, 'max': fmax, 'default': fdef}]
-            if idef == 0 or fdef == 0.0:
+                    {'name': 'b' if i == 0 else 'd', 'type': 'float', 'min': fmin, 'max': fmax, 'default': fdef},
+                    {'name': 'e' if i == 0 else 'f', 'type': 'int', 'min': 2, 'max': 9, 'default': 3}]
+            # one, two or three declared hyperparameters (a one-letter DNA is a DNA too)
+            nh = rng.choice([1, 1, 2, 3])
+            if nh == 1:
+                decl = [rng.choice(decl[:2])]
+                cnt['single_hyperparameter_declarations'] = cnt.get('single_hyperparameter_declarations', 0) + 1
+            else:
+                decl = decl[:nh]
+            if any(h['default'] == 0 for h in decl):
                 cnt['declarations_with_zero_default'] = cnt.get('declarations_with_zero_default', 0) + 1
         dna = ''.join(rng.choice(ALPHABET) for _ in decl) if (has_dna and decl) else ''
         script = {'seed': rng.randrange(1 << 30), 'p_enter': 0.05, 'observe': 'light', 'log_hp': True, 'hyperparameters': decl,
